@@ -38,6 +38,7 @@ type Eval struct {
 	neg   bool
 	nopol bool
 	hints map[string][]string // exists-bound variable -> witness candidates (hint(k, e))
+	curSt *State              // inside old(): the current state, for locals that are not live in the old state
 }
 
 const (
@@ -460,6 +461,11 @@ func (ev *Eval) localVar(name string) *Val {
 	if f.isLocal(a) {
 		if c, ok := ev.st.cells[a]; ok {
 			return c
+		}
+		if ev.curSt != nil {
+			if c, ok := ev.curSt.cells[a]; ok {
+				return c
+			}
 		}
 		ev.fail("local %s not live here", name)
 		return nil
@@ -993,6 +999,9 @@ func (ev *Eval) callExpr(x *ast.CallExpr) *Val {
 		sub := ev.sub()
 		sub.st = ev.old
 		sub.inOld = true
+		if !ev.inOld {
+			sub.curSt = ev.st // locals that do not exist in the old state keep their current value
+		}
 		return sub.eval(x.Args[0])
 	case "atentry":
 		// atentry(e): the value of e when this loop was entered (loop
@@ -1085,6 +1094,16 @@ func (ev *Eval) callExpr(x *ast.CallExpr) *Val {
 		m, k := arg(0), arg(1)
 		if mt, ok := m.Ty.Underlying().(*types.Map); ok && m.K == KMap {
 			return vBool(f.mapHas(ev.st, m, k, mt))
+		}
+	case "oldhas", "oldat":
+		// oldhas(m, k) / oldat(m, k): membership / value in the map m as it was
+		// at function entry, for a key k computed in the current state
+		m, k := arg(0), arg(1)
+		if mt, ok := m.Ty.Underlying().(*types.Map); ok && m.K == KMap && ev.old != nil {
+			if name == "oldhas" {
+				return vBool(f.mapHas(ev.old, m, k, mt))
+			}
+			return f.mapValue(ev.old, m, k, mt)
 		}
 	case "nseen":
 		m := arg(0)
@@ -1774,7 +1793,7 @@ func (ev *Eval) identKnown(name string) bool {
 
 func isContractBuiltin(name string) bool {
 	switch name {
-	case "forall", "exists", "implies", "old", "pre", "len", "cap", "min", "max", "abs", "ite", "hint", "atentry", "fresh", "isnil", "be16", "be32", "ref", "off", "has", "seen", "nseen", "is", "pow2", "typeis", "int", "bool", "string":
+	case "forall", "exists", "implies", "old", "pre", "len", "cap", "min", "max", "abs", "ite", "hint", "atentry", "oldhas", "oldat", "fresh", "isnil", "be16", "be32", "ref", "off", "has", "seen", "nseen", "is", "pow2", "typeis", "int", "bool", "string":
 		return true
 	}
 	return false
